@@ -42,6 +42,12 @@ func c02Catalogue() []c02Case {
 	mm.Name, mm.MidMeta = "mid-gop-metadata", true
 	long := av
 	long.Name, long.GopLen, long.Gops = "long-gop", 14, 3
+	hv := av
+	hv.Name, hv.VideoCodec = "hevc", "hevc"
+	he := av
+	he.Name, he.VideoCodec = "hevc-enhanced", "hevc-enh"
+	hx := av
+	hx.Name, hx.VideoCodec, hx.NoCts = "hevc-enhanced-codedframesx", "hevc-enh", true
 	var out []c02Case
 	kinds := []string{"rtmp", "flv", "ts"}
 	for _, g := range []int{0, 1, 2} {
@@ -49,7 +55,7 @@ func c02Catalogue() []c02Case {
 			if g == 0 && cp != 0 {
 				continue
 			}
-			for _, sh := range []gen.Shape{av, vo, ao, hc, hm, mm, long, g711, opus} {
+			for _, sh := range []gen.Shape{av, vo, ao, hc, hm, mm, long, g711, opus, hv, he, hx} {
 				out = append(out, c02Case{Name: sh.Name, Shapes: []gen.Shape{sh}, Gop: g, Cap: cp, Kinds: kinds})
 			}
 			// re-publish histories: same name, different tracks
@@ -470,8 +476,12 @@ func c02JudgeTs(x *c02Ctx, rec *consumerRec) {
 	}
 	// first incarnation only (the TS connection stays across re-publish; later content is C16's)
 	wantV, wantA := uint8(0), uint8(0)
+	hevc := sh.VideoCodec != ""
 	if sh.Video {
 		wantV = 0x1b
+		if hevc {
+			wantV = 0x24
+		}
 	}
 	if sh.Audio && sh.AudioCodec == "" {
 		wantA = 0x0f
@@ -576,14 +586,22 @@ func c02JudgeTs(x *c02Ctx, rec *consumerRec) {
 			}
 			hasSps, hasIdr := false, false
 			for _, n := range nals {
-				if len(n) > 0 && n[0]&0x1f == 7 {
+				if len(n) == 0 {
+					continue
+				}
+				isSps, isIdr, want := n[0]&0x1f == 7, n[0]&0x1f == 5, gen.AvcSps
+				if hevc {
+					t := n[0] >> 1 & 0x3f
+					isSps, isIdr, want = t == 33, t >= 16 && t <= 21, gen.HevcSps
+				}
+				if isSps {
 					hasSps = true
-					if !bytes.Equal(n, gen.AvcSps) {
+					if !bytes.Equal(n, want) {
 						x.bad("ts", "sps-differs", "SPS before key frame %d differs from the published one", frame)
 						return
 					}
 				}
-				if len(n) > 0 && n[0]&0x1f == 5 {
+				if isIdr {
 					hasIdr = true
 				}
 			}
@@ -778,7 +796,7 @@ func init() {
 			return n + 4
 		},
 		CaseTimeout: func(string) time.Duration { return 5 * time.Minute },
-		Rule: "one case = one whole-server run of a catalogue entry (stream shape × gop_num{0,1,2} × frame cap{0,3}, half of the entries with rtmp merge_write_size 512 or 2048; shapes: A/V, video-only, audio-only, G.711, Opus+video, sequence-header change at a GOP boundary and mid-GOP, mid-GOP metadata, long GOP, and re-publish histories A/V→audio-only, audio-only→A/V, A/V→A/V) in which an RTMP, an HTTP-FLV and an HTTP-TS joiner are attached at EVERY message index (publisher paused, exact admission index). " +
+		Rule: "one case = one whole-server run of a catalogue entry (stream shape × gop_num{0,1,2} × frame cap{0,3}, half of the entries with rtmp merge_write_size 512 or 2048; shapes: A/V (H.264, H.265 classic, H.265 enhanced-RTMP with and without composition offsets, i.e. CodedFrames / CodedFramesX packets), video-only, audio-only, G.711, Opus+video, sequence-header change at a GOP boundary and mid-GOP, mid-GOP metadata, long GOP, and re-publish histories A/V→audio-only, audio-only→A/V, A/V→A/V) in which an RTMP, an HTTP-FLV and an HTTP-TS joiner are attached at EVERY message index (publisher paused, exact admission index). " +
 			"oracle (Appendix A.1 of DESIGN.md): latest metadata/sequence headers before media and nothing else; header-in-force register equals the header each frame was published under; first video frame is a key frame; replayed GOPs are the last min(gop_num, #keys) GOPs, oldest first, prefixes cut only at cap/cap+1; live continues at the next message (or next key frame when nothing was replayed and the incarnation has video); audio-only incarnations get one of the next 3 audio frames; TS: PAT,PMT first, first video PES random-access with SPS/PPS of the header in force and carrying the key frame the replay rule names (oldest of the last min(gop_num,#keys) GOPs, else the next key frame; never a frame of an earlier incarnation). rtmp, http-flv and http-ts get different gop_num / cap values in two thirds of the cases (each protocol has its own setting). cell = protocol × shape × gop × cap × join class. thorough repeats the catalogue with other seeds (frame sizes / timestamps). Plus RTSP-to-RTSP cases: a publisher over interleaved TCP whose frames span many RTP packets and up to 10 subscribers whose PLAY completes between two packets, six of them between two fragments of a key frame - the first video packet each receives must start a key-frame access unit.",
 		Assumptions: []string{"reference RTMP/FLV/TS decoders (harness/ref)", "generated streams are decodable from their start (first video frame after a sequence header is a key frame)",
 			"RTSP joiners of an RTMP-published stream are covered by C06's RTSP consumer start checks; RTSP joiners of an RTSP-published stream by the rtsp-join cases here"},
